@@ -1,11 +1,113 @@
 (* C09 — the log store returns exactly the logical log, state and snapshot last saved.
-   Statements only: each theorem is closed by [exact <lemma>]; proofs live in Proofs/. *)
-From DB Require Import Base.Bytes Gen.GenC09 Model.LogStoreSpec Proofs.LogStoreSpec.
+   Statements only: each theorem is closed by [exact <lemma>]; proofs live in Proofs/.
+
+   Vocabulary (Model/LogStoreSpec.v, Model/LogDBPlain.v):
+     l : list pop            a run: mutations (SaveRaftState with several updates,
+                             SaveSnapshots, RemoveEntriesTo, RemoveNodeData, ImportSnapshot,
+                             close/reopen) interleaved with queries, over any number of
+                             replicas sharing the db
+     muts l                  its mutations;  wf_ops spec_init (muts l): the run respects the
+                             contract of the raft core (see Model/LogStoreSpec.v)
+     plain_prun l            the state of the faithful plain-format db model after the run
+                             (None = the Go code would have panicked)
+     plain_observe d q       the canonical answer of the model to query q
+     spec_answer s q         the answer of the logical log *)
+From DB Require Import Base.Bytes Gen.GenC09 Model.LogStoreSpec Model.KV Model.LogDBPlain
+  Proofs.LogStoreSpec Proofs.LogDBKV Proofs.LogDBPlain.
 Open Scope N_scope.
 
-(* the size limit only ever shortens an answer: what is returned is a prefix of the
-   unlimited answer *)
+(* REFINEMENT: after every contract-abiding run, every contract-abiding observation
+   (IterateEntries(low, high, maxSize), ReadRaftState, GetSnapshot, on any replica) of the
+   plain-format db equals the observation of the logical log. *)
+Theorem plain_refines : forall l q,
+  wf_ops spec_init (muts l) = true ->
+  spec_wf_query (spec_run spec_init (muts l)) q = true ->
+  exists d, plain_prun l = Some d /\
+            plain_observe d q = spec_answer (spec_run spec_init (muts l)) q.
+Proof. exact plain_refines_proved. Qed.
+Print Assumptions plain_refines.
+
+(* none of the panics of db.go / plain.go is reachable on such runs *)
+Theorem plain_no_panic : forall l, wf_ops spec_init (muts l) = true -> plain_prun l <> None.
+Proof. exact plain_no_panic_proved. Qed.
+Print Assumptions plain_no_panic.
+
+(* never a stale overwritten entry: what IterateEntries returns is what the logical log
+   holds (the latest save at that index that was not truncated or removed since) *)
+Theorem never_stale_entry : forall l n low high maxsz d es sz,
+  wf_ops spec_init (muts l) = true ->
+  spec_wf_query (spec_run spec_init (muts l)) (QIter n low high maxsz) = true ->
+  plain_prun l = Some d -> p_iterate d n low high maxsz = RIter es sz ->
+  forall e, In e es -> In e (n_ents (spec_run spec_init (muts l) n)).
+Proof. exact never_stale_entry_proved. Qed.
+Print Assumptions never_stale_entry.
+
+(* never an entry outside the requested range or past the logical end *)
+Theorem never_past_logical_end : forall l n low high maxsz d es sz,
+  wf_ops spec_init (muts l) = true ->
+  spec_wf_query (spec_run spec_init (muts l)) (QIter n low high maxsz) = true ->
+  plain_prun l = Some d -> p_iterate d n low high maxsz = RIter es sz ->
+  forall e, In e es ->
+    low <= e_index e < high /\ e_index e <= n_last (spec_run spec_init (muts l) n).
+Proof. exact never_past_logical_end_proved. Qed.
+Print Assumptions never_past_logical_end.
+
+(* never a gap: the returned entries are low, low+1, low+2, ... *)
+Theorem never_gap : forall l n low high maxsz d es sz,
+  wf_ops spec_init (muts l) = true ->
+  spec_wf_query (spec_run spec_init (muts l)) (QIter n low high maxsz) = true ->
+  plain_prun l = Some d -> p_iterate d n low high maxsz = RIter es sz ->
+  contig low es.
+Proof. exact never_gap_proved. Qed.
+Print Assumptions never_gap.
+
+(* the answer is a prefix of the unlimited answer, and it is shorter only when the size
+   limit was exceeded *)
+Theorem size_limit_only_shortens : forall l n low high maxsz d es sz,
+  wf_ops spec_init (muts l) = true ->
+  spec_wf_query (spec_run spec_init (muts l)) (QIter n low high maxsz) = true ->
+  plain_prun l = Some d -> p_iterate d n low high maxsz = RIter es sz ->
+  (exists rest, filter (in_range low high) (n_ents (spec_run spec_init (muts l) n)) = es ++ rest) /\
+  (es = filter (in_range low high) (n_ents (spec_run spec_init (muts l) n)) \/ maxsz < sz).
+Proof. exact size_limit_only_shortens_proved. Qed.
+Print Assumptions size_limit_only_shortens.
+
+(* close/reopen (the cache is dropped) changes no observation *)
+Theorem reopen_preserves_obs : forall l q d,
+  wf_ops spec_init (muts l) = true ->
+  spec_wf_query (spec_run spec_init (muts l)) q = true ->
+  plain_prun l = Some d ->
+  plain_observe (p_reopen d) q = plain_observe d q.
+Proof. exact reopen_preserves_obs_proved. Qed.
+Print Assumptions reopen_preserves_obs.
+
+(* the size limit on the spec side *)
 Theorem size_limit_only_shortens_spec : forall es maxsz size,
   exists rest, es = fst (take_size maxsz size es) ++ rest.
 Proof. exact take_size_prefix. Qed.
 Print Assumptions size_limit_only_shortens_spec.
+
+(* non-vacuity: a run over two replicas sharing the db — append 1..4 (term 1), overwrite
+   from 3 with ONE entry of term 2 (3..4 become 3), snapshot record, compaction, reopen,
+   a second replica in the same SaveRaftState call — meets the contract, and a query that
+   is clamped by the logical end is answered with the new entry 3 only. *)
+Definition ex_n1 : nid := (1, 1).
+Definition ex_n2 : nid := (17, 1).
+Definition ex_e (i t g : N) : entry := mkEnt i t g 16.
+Definition ex_run : list pop :=
+  [ PMut (OSave [mkUp ex_n1 (mkSt 1 1 0) (mkSs 0 0 0) [ex_e 1 1 101; ex_e 2 1 102; ex_e 3 1 103; ex_e 4 1 104]]);
+    PQry (QSnap ex_n1);
+    PMut (OSave [mkUp ex_n1 (mkSt 2 1 2) (mkSs 0 0 0) [ex_e 3 2 203];
+                 mkUp ex_n2 (mkSt 2 2 0) (mkSs 0 0 0) [ex_e 1 2 901]]);
+    PMut (OSnap ex_n1 (mkSs 2 1 77));
+    PMut (ORemTo ex_n1 2);
+    PMut OReopen ].
+Example ex_run_wf :
+  wf_ops spec_init (muts ex_run) = true /\
+  spec_wf_query (spec_run spec_init (muts ex_run)) (QIter ex_n1 3 9 1000) = true /\
+  match plain_prun ex_run with
+  | Some d => p_iterate d ex_n1 3 9 1000 = RIter [ex_e 3 2 203] 144 /\
+              plain_observe d (QState ex_n1 2) = AState (Some (mkSt 2 1 2)) 3 1
+  | None => False
+  end.
+Proof. vm_compute. repeat split; reflexivity. Qed.
